@@ -276,7 +276,7 @@ def run_property(pid: str, tier: str, repo_root: str | None = None, only_rule: s
             "samples": samples,
             "units_analysed": {**repo.stats(), "repo_digest": digest_repo(repo), "repo_root": str(repo.root),
                                "call_resolution": dict(ctx.res.stats)},
-            "notes": ctx.notes,
+            "notes": {k: v for k, v in ctx.notes.items() if not k.startswith("_")},
             "decides": info.get("decides", ""),
             "not_decided": info.get("not_decided", ""),
             "trusted_base": ctx.trusted,
